@@ -18,12 +18,15 @@ import (
 	"verifharness/hx"
 )
 
-// c06.setup     aesni  block     the real setupTLS on   a.test:8443 { tls self_signed { <block> } }
+// c06.setup     aesni  block  [addrhex]   the real setupTLS on   <addr> { tls self_signed { <block> } }
+//   addr  = the site address as written (default a.test:8443); the settings do not depend on it
 //   block = ';' list of lines <namehex>|<arghex>,<arghex>,…
 //   out   = err:<class> | min TAB max TAB ciphers TAB curves TAB prefer TAB clientAuth TAB clientCerts TAB alpn TAB disableSNI
 //
-// c06.listener  aesni  block  block2   the same Casketfile (block2 != "-": plus a second site a.test:8443/admin
-//   with `tls self_signed { block2 }`, sharing the host name) through the loader front end AND MakeServers/NewServer
+// c06.listener  aesni  block  block2  [w1hex  w2hex  other]   the same Casketfile (block2 != "-": plus a second site
+//   a.test:8443/admin with `tls self_signed { block2 }`, sharing the host name; other != "-": plus a site b.test:8443
+//   with `tls self_signed { other }`) through the loader front end AND MakeServers/NewServer
+//   w1 / w2 = the addresses of the first two sites AS WRITTEN (they mean a.test:8443 and a.test:8443/admin)
 //   (the listener's tls.Config as casket builds it), then a REAL handshake over net.Pipe with
 //   server name a.test, versions TLS 1.0..1.3 offered, the certificate being the self-signed one
 //   setupTLS generated:   out = err | fail | ok TAB version TAB sanhex TAB requested
@@ -105,6 +108,17 @@ func c06EncBlock(ls []c06Line) string {
 
 // c06Load runs the loader front end on the one-site Casketfile and returns the site's config.
 func c06Load(block []c06Line, second ...[]c06Line) (*casket.Instance, casket.Context, *httpserver.SiteConfig, string) {
+	addrs := []string{"a.test:8443"}
+	blocks := [][]c06Line{block}
+	for _, blk := range second {
+		addrs = append(addrs, "a.test:8443/admin")
+		blocks = append(blocks, blk)
+	}
+	return c06LoadAddrs(addrs, blocks)
+}
+
+// c06LoadAddrs: one site per address (as written), each with `tls self_signed { block }`
+func c06LoadAddrs(addrs []string, blocks [][]c06Line) (*casket.Instance, casket.Context, *httpserver.SiteConfig, string) {
 	var b strings.Builder
 	site := func(addr string, block []c06Line) {
 		b.WriteString(addr + " {\n  tls self_signed {\n")
@@ -117,9 +131,8 @@ func c06Load(block []c06Line, second ...[]c06Line) (*casket.Instance, casket.Con
 		}
 		b.WriteString("  }\n}\n")
 	}
-	site("a.test:8443", block)
-	for _, blk := range second {
-		site("a.test:8443/admin", blk)
+	for i, a := range addrs {
+		site(a, blocks[i])
 	}
 	inst, ctx, err := casket.VerifC15Load(casket.CasketfileInput{Filepath: "Testfile", Contents: []byte(b.String()), ServerTypeName: "http"})
 	if err != nil {
@@ -142,10 +155,24 @@ func c06Load(block []c06Line, second ...[]c06Line) (*casket.Instance, casket.Con
 		return inst, ctx, nil, "err:" + cls
 	}
 	cfgs := httpserver.VerifC15Configs(ctx)
-	if len(cfgs) != 1+len(second) {
+	if len(cfgs) != len(addrs) {
 		return inst, ctx, nil, fmt.Sprintf("config-count:%d", len(cfgs))
 	}
 	return inst, ctx, cfgs[0], ""
+}
+
+// c06AddrTokenOK: a site address the streams write into a Casketfile (no blanks, braces, quotes, commas)
+func c06AddrTokenOK(s string) bool {
+	if s == "" {
+		return false
+	}
+	for i := 0; i < len(s); i++ {
+		c := s[i]
+		if !(c >= 'a' && c <= 'z' || c >= 'A' && c <= 'Z' || c >= '0' && c <= '9' || strings.IndexByte("._-/:*[]", c) >= 0) {
+			return false
+		}
+	}
+	return true
 }
 
 func c06BlockTokensOK(block []c06Line) bool {
@@ -175,7 +202,7 @@ func c06BlockTokensOK(block []c06Line) bool {
 }
 
 func c06SetupEval(f []string) (string, []string) {
-	if len(f) != 2 {
+	if len(f) != 2 && len(f) != 3 {
 		return "bad-case", nil
 	}
 	if (f[0] == "1") != cpuid.CPU.AesNi() {
@@ -185,9 +212,19 @@ func c06SetupEval(f []string) (string, []string) {
 	if !c06BlockTokensOK(block) {
 		return "bad-case:token", nil
 	}
-	inst, _, sc, e := c06Load(block)
+	addr := "a.test:8443"
+	if len(f) == 3 {
+		addr = hx.UnHS(f[2])
+		if !c06AddrTokenOK(addr) {
+			return "bad-case:token", nil
+		}
+	}
+	inst, _, sc, e := c06LoadAddrs([]string{addr}, [][]c06Line{block})
 	defer inst.ShutdownCallbacks()
 	tags := []string{fmt.Sprintf("lines=%d", len(block))}
+	if addr != "a.test:8443" {
+		tags = append(tags, "address-spelled")
+	}
 	for _, l := range block {
 		tags = append(tags, "has-"+l.name)
 	}
@@ -212,7 +249,7 @@ func c06SetupEval(f []string) (string, []string) {
 }
 
 func c06ListenerEval(f []string) (string, []string) {
-	if len(f) != 3 {
+	if len(f) != 3 && len(f) != 6 {
 		return "bad-case", nil
 	}
 	if (f[0] == "1") != cpuid.CPU.AesNi() {
@@ -222,17 +259,47 @@ func c06ListenerEval(f []string) (string, []string) {
 	if !c06BlockTokensOK(block) {
 		return "bad-case:token", nil
 	}
-	var second [][]c06Line
+	addrs, blocks := []string{"a.test:8443"}, [][]c06Line{block}
+	if len(f) == 6 {
+		addrs[0] = hx.UnHS(f[3])
+	}
 	if f[2] != "-" {
 		b2 := c06ParseBlock(f[2])
 		if !c06BlockTokensOK(b2) {
 			return "bad-case:token", nil
 		}
-		second = append(second, b2)
+		a2 := "a.test:8443/admin"
+		if len(f) == 6 {
+			a2 = hx.UnHS(f[4])
+		}
+		addrs, blocks = append(addrs, a2), append(blocks, b2)
 	}
-	inst, ctx, sc, e := c06Load(block, second...)
+	if len(f) == 6 && f[5] != "-" {
+		b3 := c06ParseBlock(f[5])
+		if !c06BlockTokensOK(b3) {
+			return "bad-case:token", nil
+		}
+		addrs, blocks = append(addrs, "b.test:8443"), append(blocks, b3)
+	}
+	tags := []string{fmt.Sprintf("lines=%d", len(block)), fmt.Sprintf("sites=%d", len(addrs))}
+	for i, a := range addrs {
+		if !c06AddrTokenOK(a) {
+			return "bad-case:token", nil
+		}
+		// the written addresses must mean a.test:8443 and a.test:8443/admin
+		want := []string{"a.test /", "a.test /admin", "b.test /"}[i]
+		if len(addrs) == 2 && i == 1 && f[2] == "-" {
+			want = "b.test /"
+		}
+		if c06TrieKey(a) != want {
+			return "bad-case:address-meaning", nil
+		}
+		if a != strings.ToLower(a) {
+			tags = append(tags, "host-written-with-capitals")
+		}
+	}
+	inst, ctx, sc, e := c06LoadAddrs(addrs, blocks)
 	defer inst.ShutdownCallbacks()
-	tags := []string{fmt.Sprintf("lines=%d", len(block))}
 	if e != "" {
 		return "err", append(tags, "trivial-rejected")
 	}
@@ -333,6 +400,14 @@ func c06SetupGen(g *hx.Gen) {
 	emit(L("insecure_disable_sni_matching", "insecure_disable_sni_matching", "protocols", "tls1.3"))
 	emit(L("must_staple"))
 	emit(L("bogus", "x"))
+	// the site address as written: letter case, scheme, trailing dot, a path, an IP literal — the block lands on the
+	// site's own config whatever the spelling (setupTLS finds the config by the normalised key)
+	for _, a := range c06SetupAddrs {
+		g.Case(aes, c06EncBlock(nil), hx.HS(a))
+		g.Case(aes, c06EncBlock([]c06Line{L("protocols", "tls1.1", "TLS1.3"), L("clients", "require"), L("alpn", "h2")}), hx.HS(a))
+		g.Case(aes, c06EncBlock([]c06Line{L("clients", "verify_if_given", "ca1.pem"), L("ciphers", c06CipherNames[2]), L("insecure_disable_sni_matching")}), hx.HS(a))
+		g.Case(aes, c06EncBlock([]c06Line{L("protocols", "tls1.3", "tls1.2")}), hx.HS(a))
+	}
 	// seeded random blocks of 0..5 lines
 	N := 2500
 	if g.Thorough() {
@@ -398,9 +473,16 @@ func c06SetupGen(g *hx.Gen) {
 				ls[i] = L(hx.Pick(g.Rng, []string{"must_staple", "no_redirect", "bogus", "protocol"}))
 			}
 		}
-		emit(ls...)
+		if it%4 == 0 {
+			g.Case(aes, c06EncBlock(ls), hx.HS(hx.Pick(g.Rng, c06SetupAddrs)))
+		} else {
+			emit(ls...)
+		}
 	}
 }
+
+var c06SetupAddrs = []string{"A.test:8443", "A.TEST:8443", "a.Test:8443", "https://a.test:8443", "HTTPS://A.Test:8443", "a.test.:8443",
+	"A.test", "https://A.Test", "a.test:https", "A.test:8443/Admin", "[::1]:8443", "[0::1]:8443", "*.A.test:8443"}
 
 func c06ListenerGen(g *hx.Gen) {
 	aes := b01(cpuid.CPU.AesNi())
@@ -415,6 +497,25 @@ func c06ListenerGen(g *hx.Gen) {
 	for _, b1 := range blocks {
 		for _, b2 := range blocks {
 			g.Case(aes, c06EncBlock(b1), c06EncBlock(b2)) // "" = a second site with an empty block; "-" = no second site
+		}
+	}
+	// the addresses as written (they mean a.test:8443 and a.test:8443/admin), alone, beside each other and beside a
+	// site of another host name (b.test:8443) whose settings must not govern a handshake under a.test
+	w1s := []string{"a.test:8443", "A.test:8443", "A.TEST:8443", "a.tEsT:8443", "https://a.test:8443", "HTTPS://A.Test:8443"}
+	w2s := []string{"a.test:8443/admin", "A.Test:8443/admin", "https://A.TEST:8443/admin"}
+	mine := [][]c06Line{nil, {L("clients", "require")}, {L("clients", "request"), L("protocols", "tls1.3")}, {L("protocols", "tls1.2")},
+		{L("protocols", "tls1.0", "tls1.1"), L("ciphers", "ECDHE-ECDSA-AES256-CBC-SHA")}}
+	others := [][]c06Line{nil, {L("clients", "require")}, {L("protocols", "tls1.3")}, {L("protocols", "tls1.0", "tls1.2"), L("clients", "request")}}
+	for wi, w1 := range w1s {
+		for mi, m := range mine {
+			for oi, o := range others {
+				g.Case(aes, c06EncBlock(m), "-", hx.HS(w1), hx.HS(w2s[0]), c06EncBlock(o))
+				if (wi+mi+oi)%3 == 0 {
+					g.Case(aes, c06EncBlock(m), c06EncBlock(m), hx.HS(w1), hx.HS(w2s[(wi+oi)%len(w2s)]), c06EncBlock(o))
+				}
+			}
+			g.Case(aes, c06EncBlock(m), "-", hx.HS(w1), hx.HS(w2s[0]), "-")
+			g.Case(aes, c06EncBlock(m), c06EncBlock(mine[(mi+1)%len(mine)]), hx.HS(w1), hx.HS(w2s[(wi+mi)%len(w2s)]), "-")
 		}
 	}
 	protos := [][]string{nil, {"tls1.2"}, {"tls1.3"}, {"tls1.0", "tls1.1"}, {"tls1.0", "tls1.3"}, {"tls1.1", "tls1.2"}, {"tls1.0"}}
